@@ -56,7 +56,7 @@ def gen_cases(rng, tier):
             add(x, src)
             if rng.random() < 0.6:
                 add(x, recvlib.inject_mistakes(rng, src, rng.choice([1, 1, 2, 3])))
-    return [recvprop.with_pairs(c) for c in cases]
+    return recvprop.all_with_pairs(cases)
 
 
 def run(tier, seed, replay=None):
